@@ -177,9 +177,27 @@ class Gen:
         return {"types": [], "init": init, "guard": g, "body": body}
 
 
-def generate(rng, n, size=1):
+def close_value_programs():
+    """comparisons whose two sides take DISTINCT values closer than 1e-9 (dyadic, so floats are exact): ==, <=, >= must be
+    decided exactly (x = 1024**-k; 1 + 2**-30 vs 1)"""
+    F = Fraction
+    half = lambda e: ("choice", [(const(F(1, 2)), e), (const(F(1, 2)), var("x"))])
     out = []
-    for _ in range(n):
+    for cop, rhs in [("==", const(0)), ("<=", const(0)), (">=", const(F(1, 1024)))]:
+        out.append({"types": [], "init": [("assign", "x", det(const(1))), ("assign", "c", det(const(0)))], "guard": ("true",),
+                    "body": [("assign", "x", half(("mul", const(F(1, 1024)), var("x")))),
+                             ("if", [(("atom", var("x"), cop, rhs), [("assign", "c", det(("add", var("c"), const(1))))])], None)]})
+    out.append({"types": [], "init": [("assign", "x", det(const(1))), ("assign", "y", det(const(0))), ("assign", "c", det(const(0)))],
+                "guard": ("atom", var("c"), "<", const(2)),
+                "body": [("assign", "x", half(("mul", const(F(1, 32768)), var("x")))), ("assign", "y", det(("add", const(1), var("x")))),
+                         ("if", [(("atom", var("y"), "==", const(1)), [("assign", "c", det(("add", var("c"), const(1))))]),
+                                 (("atom", ("sub", const(1), var("x")), ">=", const(1)), [("assign", "c", det(("add", var("c"), const(2))))])], None)]})
+    return [{"prog": p, "kinds": {"close-values": 1}, "explicit_last": True, "N": 4} for p in out]
+
+
+def generate(rng, n, size=1):
+    out = close_value_programs()
+    for _ in range(n - len(out)):
         g = Gen(rng, size)
         p = g.program()
         out.append({"prog": p, "kinds": g.kinds, "explicit_last": rng.random() < 0.3})
